@@ -317,6 +317,9 @@ func (c *producerConfigMapped) finalizemapDest(v *MapConfigBase) error {
 		}
 
 		v.ProtoArray = vv.Array
+	} else if fieldName, ok := c.Formatter.reMap[v.Destination]; ok && fieldName != "" {
+		// an existing field given by its documented name (eg: in_if, sampling_rate)
+		v.Destination = fieldName
 	}
 	return nil
 }
